@@ -204,6 +204,7 @@ func (w *World) newNode(id string) *Node {
 		func(ctx context.Context, h primitives.BlockHeight, prev interfaces.Block, canBeFirstLeader bool) {
 			w.Log.Add(spi.Event{Node: id, Kind: spi.EvNewRound, H: uint64(h), Ok: canBeFirstLeader, Block: spi.AsBlk(prev)})
 		})
+	n.W.VerifObserveRecoveredPanics(func(r interface{}) { w.Mon.OnRecoveredPanic(n, r) })
 	return n
 }
 
